@@ -254,7 +254,8 @@ def musig_combine_privs(privs, sort=True):
 
 
 def musig_combine_pubs(pubs, sort=True):
-    keys = [[pub, secp256k1.ec_pubkey_serialize(pub)] for pub in pubs]
+    # work on copies: the keys are negated and tweaked in place below
+    keys = [[pub[:1] + pub[1:], secp256k1.ec_pubkey_serialize(pub)] for pub in pubs]
     for karr in keys:
         if karr[1][0] == 0x03:
             secp256k1.ec_pubkey_negate(karr[0])
